@@ -1,6 +1,6 @@
 (* C18/Spec.v -- the property, stated independently of the encoders/decoders, with the boolean
    checkers the correspondence (Corr.v) runs on the implementation's observed outputs. *)
-From Coq Require Import ZArith List Bool String Ascii QArith.
+From Coq Require Import ZArith List Bool String Ascii QArith Qabs.
 From PV Require Import Base.NpSearch C18.Model.
 Import ListNotations.
 Open Scope Z_scope.
@@ -169,15 +169,15 @@ Definition Row_Spec (first : option string) (excl : list string) (n : Z) (r : ro
   (forall k, lookup String.eqb k o =
              if smem k excl then None
              else match lookup String.eqb k r with Some v => expected n v | None => None end) /\
-  (forall f, first = Some f -> In f (map fst o) -> exists t, o = t :: nil \/ exists t', map fst o = f :: t').
+  (forall f, first = Some f -> In f (map fst o) -> exists t', map fst o = f :: t').
 
 Definition Rows_Spec (first : option string) (excl : list string) (n : Z) (rows : list row)
            (out : list (list (string * cell))) : Prop :=
   Forall2 (Row_Spec first excl n) rows out.
 
 (* ---- comparison of an observed cell with an expected one ---- *)
-Definition Qpow2 (z : Z) : Q := Qpower (2 # 1) z.
-Definition Qpow10 (z : Z) : Q := Qpower (10 # 1) z.
+Definition Qpow2 (z : Z) : Q := Qpower (2 # 1)%Q z.
+Definition Qpow10 (z : Z) : Q := Qpower (10 # 1)%Q z.
 (* y = (-1)^neg' m 2^e is within half a unit in the last place of mant * 10^e10 (normal range) *)
 Definition near_dec (neg : bool) (mant e10 : Z) (y : ftok) : bool :=
   match y with
@@ -186,7 +186,7 @@ Definition near_dec (neg : bool) (mant e10 : Z) (y : ftok) : bool :=
       if mant =? 0 then m =? 0
       else (0 <? m) &&
            let u := Z.log2 m + e - 52 in
-           Qle_bool (Qabs (inject_Z m * Qpow2 e - inject_Z mant * Qpow10 e10) * (2 # 1)) (Qpow2 u)
+           Qle_bool (Qabs (inject_Z m * Qpow2 e - inject_Z mant * Qpow10 e10) * (2 # 1))%Q (Qpow2 u)
   | _ => false
   end.
 
